@@ -361,3 +361,28 @@ Proof.
     + constructor; [cbn; split; [reflexivity|exact N]|exact F].
     + unfold db_clients. rewrite omap_cons. fold (db_clients db). rewrite C. cbn [r_blob r_id]. rewrite D. reflexivity.
 Qed.
+
+(* ---------- checkpoints: the last save at the highest round is what loads back ---------- *)
+Lemma ck_ins_end r s d : Forall (fun e => fst e < r) d -> ck_ins r s d = d ++ [(r, s)].
+Proof.
+  induction 1 as [|e t He _ IH]; [reflexivity|]. cbn [ck_ins app].
+  destruct (r <? fst e) eqn:E; [apply Z.ltb_lt in E; lia|]. now rewrite IH.
+Qed.
+
+Lemma checkpoint_last_save_wins d r s keep : 1 <= keep -> Forall (fun e => fst e <= r) d ->
+  ck_load (ck_save d r s keep) = Some (r, s).
+Proof.
+  intros Hk Hd. unfold ck_save.
+  set (d' := filter (fun e => negb (fst e =? r)) d).
+  assert (F : Forall (fun e => fst e < r) d').
+  { subst d'. rewrite Forall_forall in *. intros e He. apply filter_In in He. destruct He as [Hi Hn].
+    apply negb_true_iff, Z.eqb_neq in Hn. specialize (Hd e Hi). cbn in Hd. lia. }
+  rewrite (ck_ins_end r s d' F), app_length. cbn [length].
+  destruct (0 <? keep) eqn:E; [|apply Z.ltb_ge in E; lia].
+  set (n := Z.to_nat (Z.max 0 (Z.of_nat (length d' + 1) - keep))).
+  assert (Hn : (n <= length d')%nat) by (subst n; lia).
+  rewrite skipn_app. replace (n - length d')%nat with 0%nat by lia. cbn [skipn].
+  unfold ck_load. destruct (skipn n d' ++ [(r, s)]) eqn:Q.
+  - destruct (skipn n d'); discriminate.
+  - rewrite <- Q. now rewrite last_last.
+Qed.
